@@ -106,14 +106,21 @@ fn blame_shape(indiv: &[u8], r: &RecDesc, h: &HeaderDesc, dict: &Dict) -> String
 
 /// Comparison form of a record: implied first-allele phasing before VCF 4.4; a record without FORMAT
 /// keys (n_fmt = 0) has no sample rows, however many samples the header names.
-fn canon_rec(mut r: RecDesc, ff: (u32, u32)) -> RecDesc {
-    if ff < (4, 4) {
-        canon_first_phasing(&mut r);
-    }
+fn canon_rec(mut r: RecDesc, _ff: (u32, u32)) -> RecDesc {
     if r.format.is_empty() {
         r.samples.clear();
     }
     r
+}
+
+/// The description side only: before VCF 4.4 the first allele's phasing is the one the specification
+/// rule implies (phased iff every other separator is `|`); what is read back is compared exactly
+/// against it, and lazy vs eager views of the same bytes exactly against each other.
+fn canon_exp(mut r: RecDesc, ff: (u32, u32)) -> RecDesc {
+    if ff < (4, 4) {
+        canon_first_phasing(&mut r);
+    }
+    canon_rec(r, ff)
 }
 
 /// An accepted record for the whole-file passes.
@@ -282,7 +289,7 @@ fn check_record(hd: &HeaderDesc, hc: &HeaderCtx, writer: &mut bcf::io::Writer<Ve
     let bytes = writer.get_ref()[before..].to_vec();
     let ctxs = format!("record (as VCF): {}\nfileformat {}.{}; BCF bytes: {}", lossy(&text), ff.0, ff.1, hex(&bytes[..bytes.len().min(160)]));
     let canon = |r: RecDesc| -> RecDesc { canon_rec(r, ff) };
-    let exp = canon(rd.clone());
+    let exp = canon_exp(rd.clone(), ff);
     let colkey = |d: &genvcf::FieldDiff| format!("{}|{}", d.column, d.key);
     let mut bad: BTreeSet<String> = BTreeSet::new();
 
@@ -443,16 +450,8 @@ fn check_record(hd: &HeaderDesc, hc: &HeaderCtx, writer: &mut bcf::io::Writer<Ve
                                 } else {
                                     for (fi, (k, col)) in series.iter().enumerate() {
                                         for (si, got) in col.iter().enumerate() {
-                                            let mut e = v.samples.get(si).and_then(|r| r.get(fi)).cloned().unwrap_or(None);
-                                            let mut g = got.clone();
-                                            if ff < (4, 4) {
-                                                for x in [&mut e, &mut g] {
-                                                    if let Some(Val::Gt(gt)) = x {
-                                                        let imp = genvcf::implied_first_phasing(gt);
-                                                        gt[0].phased = imp;
-                                                    }
-                                                }
-                                            }
+                                            let e = v.samples.get(si).and_then(|r| r.get(fi)).cloned().unwrap_or(None);
+                                            let g = got.clone();
                                             if !genvcf::opt_val_eq(&e, &g, &Tol::BITS) {
                                                 out.violation(format!("lazy-series-ne-rows:{}", genvcf::classify(&e, &g)), format!("series {k} sample {si}: {} vs {}\n{ctxs}", genvcf::show_val(&e), genvcf::show_val(&g)));
                                             }
@@ -483,6 +482,7 @@ fn check_record(hd: &HeaderDesc, hc: &HeaderCtx, writer: &mut bcf::io::Writer<Ve
         for v in row.iter().flatten() {
             if let Val::Gt(g) = v {
                 out.count(&format!("gt_ploidy[{}]", g.len()), 1);
+                gt_coverage(g, ff, out);
             }
         }
     }
@@ -581,17 +581,7 @@ fn lazy_inherent(hc: &HeaderCtx, rec: &bcf::Record, view: &RecDesc, out: &mut Ca
                                     }
                                 },
                             };
-                            let mut e2 = exp.clone();
-                            let mut g2 = got.clone();
-                            for x in [&mut e2, &mut g2] {
-                                if let Some(Val::Gt(gt)) = x {
-                                    if h.file_format() < vcf::header::FileFormat::new(4, 4) {
-                                        let imp = genvcf::implied_first_phasing(gt);
-                                        gt[0].phased = imp;
-                                    }
-                                }
-                            }
-                            if !genvcf::opt_val_eq(&e2, &g2, &Tol::BITS) {
+                            if !genvcf::opt_val_eq(&exp, &got, &Tol::BITS) {
                                 bad!("series.get", format!("key {k:?} sample {si}: {} vs {}", genvcf::show_val(&exp), genvcf::show_val(&got)));
                             }
                         }
@@ -763,6 +753,23 @@ fn inject_unrepresentable(rng: &mut Rng, r: &mut RecDesc) -> Option<&'static str
     done
 }
 
+/// Coverage of genotype separator orders per fileformat (ploidy >= 3).
+fn gt_coverage(g: &[GtAllele], ff: (u32, u32), out: &mut CaseOut) {
+    if g.len() < 3 {
+        return;
+    }
+    let seps: Vec<bool> = g.iter().skip(1).map(|a| a.phased).collect();
+    if seps.iter().any(|p| *p) && seps.iter().any(|p| !*p) {
+        out.count(&format!("gt_mixed_separators[{}.{}]", ff.0, ff.1), 1);
+        if *seps.last().unwrap() && seps[..seps.len() - 1].iter().any(|p| !*p) {
+            out.count(&format!("gt_last_phased_earlier_unphased[{}.{}]", ff.0, ff.1), 1);
+        }
+        if !*seps.last().unwrap() {
+            out.count(&format!("gt_last_unphased_earlier_phased[{}.{}]", ff.0, ff.1), 1);
+        }
+    }
+}
+
 fn fdef(id: &str, num: Num, ty: Ty) -> FieldDef {
     FieldDef { id: id.into(), num, ty, desc: format!("{id} field"), idx: None, extra: vec![] }
 }
@@ -792,6 +799,7 @@ fn corpus() -> Vec<(HeaderDesc, Vec<RecDesc>)> {
         format: vec!["GT".into(), "GQ".into()],
         samples: vec![vec![gt(&[(Some(0), true), (Some(0), true)]), Some(Val::Int(48))], vec![gt(&[(Some(1), true), (Some(0), true)]), Some(Val::Int(48))]],
     };
+    let base_for_gt = base.clone();
     let mut recs = vec![base.clone()];
     // width boundaries, scalar and vector, INFO and FORMAT
     for v in [-121, -120, 127, 128, -32761, -32760, 32767, 32768, i32::MIN + 8, i32::MAX] {
@@ -851,6 +859,13 @@ fn corpus() -> Vec<(HeaderDesc, Vec<RecDesc>)> {
         recs.push(gen_rich_record(&mut rng, &h, &ro));
     }
     let mut out = vec![(h.clone(), recs)];
+    // ploidy 3 / 4 genotypes with every order of `/` and `|` separators under every fileformat
+    for minor in 2..=5u32 {
+        let mut hv = h.clone();
+        hv.fileformat = (4, minor);
+        let m = genvcf::gt_separator_matrix(&hv, &base_for_gt);
+        out.push((hv, m));
+    }
     {
         let mut h0 = h.clone();
         h0.samples.clear();
@@ -995,6 +1010,12 @@ fn main() {
         rep.floor("records_decoded_independently", get("records_decoded_independently"), recs * 6 / 10);
         rep.floor("lazy_records_read_through_every_accessor", get("lazy_records_read_through_every_accessor"), recs * 6 / 10);
         rep.floor("vcf_renderings_compared", get("vcf_renderings_compared"), recs * 5 / 10);
+        for minor in 2..=5 {
+            for k in ["gt_mixed_separators", "gt_last_phased_earlier_unphased", "gt_last_unphased_earlier_phased"] {
+                let k = format!("{k}[4.{minor}]");
+                rep.floor(&k, get(&k), 40);
+            }
+        }
         rep.floor("adjacent_rich_then_minimal", get("adjacent_rich_then_minimal"), recs / 60);
         rep.floor("adjacent_minimal_then_rich", get("adjacent_minimal_then_rich"), recs / 60);
         rep.floor("adjacent_rich_then_no_format", get("adjacent_rich_then_no_format"), recs / 400);
